@@ -77,6 +77,7 @@ static void h_run_case(hcase_t* c) {
   }
   rt_reg((void*)&sig, 16, 0, 8);
   rt_reg(nodes, sizeof nodes, 100, 8);
+  rt_reg_rest(&sig, sizeof sig, 3900);   /* search mode only: fields the model does not know */
   rt_name(nodes, sizeof nodes, 1, sizeof nodes[0]);
   rt_name(fibers, sizeof fibers, 1, sizeof fibers[0]);
   rt_run(c->nthreads, body, c->sched, c->nsched, dmax);
